@@ -205,6 +205,16 @@ func c13Universe(size int, lvl stack.Similarity) []sigSpec {
 	} {
 		add(sigSpec{Frames: []frameSpec{v[0], v[1]}})
 	}
+	// function names differing only by case, and one sorting between them: equality and order
+	// of names must be the same relation
+	for _, v := range []frameSpec{
+		{Loc: stack.Stdlib, Fn: "Parse", Dir: "d/p.go", Line: 50},
+		{Loc: stack.Stdlib, Fn: "parse", Dir: "d/p.go", Line: 10},
+		{Loc: stack.Stdlib, Fn: "Run", Dir: "d/p.go", Line: 10},
+		{Loc: stack.Stdlib, Fn: "PARSE", Dir: "d/p.go", Line: 30},
+	} {
+		add(sigSpec{Frames: []frameSpec{v}})
+	}
 	if size > len(u) {
 		// thorough: more depth-3 and attribute combinations
 		for i := 0; len(u) < size; i++ {
